@@ -22,6 +22,10 @@ pub enum Class {
     Cr,
     Space,
     Punct,
+    /// first / second unit of a character that occupies two units (like a multi-byte
+    /// scalar in a str): `len()` counts units, `tokenize_chars` yields one token for both
+    Lead,
+    Cont,
 }
 
 thread_local! {
@@ -59,25 +63,31 @@ pub fn fresh_char(class: Class) -> Sym {
         Class::Space => F::A(Atom::EqC(s.0, -3)),
         // a handful of different punctuation characters
         Class::Punct => F::And(vec![F::not(F::A(Atom::LtC(s.0, -19))), F::A(Atom::LtC(s.0, -9))]),
+        Class::Lead => F::And(vec![F::not(F::A(Atom::LtC(s.0, 30000))), F::A(Atom::LtC(s.0, 40000))]),
+        Class::Cont => F::And(vec![F::not(F::A(Atom::LtC(s.0, 40000))), F::A(Atom::LtC(s.0, 50000))]),
     };
     engine::assume_nocheck(&f);
     s
 }
 
 /// Builds a text from a pattern: 'x' (any letter) = fresh ordinary character,
-/// '\n', '\r', ' ', '.' = LF, CR, space, punctuation.
+/// 'W' = fresh two-unit character, '\n', '\r', ' ', '.' = LF, CR, space, punctuation.
 pub fn text_from_pattern(p: &str) -> Vec<Sym> {
-    p.chars()
-        .map(|c| {
-            fresh_char(match c {
-                '\n' => Class::Lf,
-                '\r' => Class::Cr,
-                ' ' => Class::Space,
-                '.' => Class::Punct,
-                _ => Class::Ord,
-            })
-        })
-        .collect()
+    let mut out = vec![];
+    for c in p.chars() {
+        match c {
+            '\n' => out.push(fresh_char(Class::Lf)),
+            '\r' => out.push(fresh_char(Class::Cr)),
+            ' ' => out.push(fresh_char(Class::Space)),
+            '.' => out.push(fresh_char(Class::Punct)),
+            'W' => {
+                out.push(fresh_char(Class::Lead));
+                out.push(fresh_char(Class::Cont));
+            }
+            _ => out.push(fresh_char(Class::Ord)),
+        }
+    }
+    out
 }
 
 const PUNCT: &[u8] = b"().,;:!?-+";
@@ -90,6 +100,8 @@ pub fn render_char(s: Sym, out: &mut Vec<u8>) {
         Class::Cr => out.push(b'\r'),
         Class::Space => out.push(b' '),
         Class::Punct => out.push(PUNCT[((v + 19).rem_euclid(10)) as usize]),
+        Class::Lead => out.push(0xC4 + ((v - 30000).rem_euclid(16)) as u8),
+        Class::Cont => out.push(0x80 + ((v - 40000).rem_euclid(64)) as u8),
         Class::Ord => {
             if BYTE_MODE.with(|b| b.get()) {
                 out.push(0xFF);
@@ -237,7 +249,15 @@ impl DiffableStr for SymTxt {
         self.runs(|c| SymTxt::is_ws(c) as u8)
     }
     fn tokenize_chars(&self) -> Vec<&Self> {
-        (0..self.0.len()).map(|i| SymTxt::new(&self.0[i..i + 1])).collect()
+        let c = &self.0;
+        let mut out = vec![];
+        let mut i = 0;
+        while i < c.len() {
+            let w = if class_of(c[i]) == Class::Lead && i + 1 < c.len() && class_of(c[i + 1]) == Class::Cont { 2 } else { 1 };
+            out.push(SymTxt::new(&c[i..i + w]));
+            i += w;
+        }
+        out
     }
     fn tokenize_unicode_words(&self) -> Vec<&Self> {
         // ordinary runs are words, whitespace runs stay together, every
@@ -249,7 +269,7 @@ impl DiffableStr for SymTxt {
             let cut = i == c.len() || {
                 let (a, b) = (class_of(c[i - 1]), class_of(c[i]));
                 let k = |x: Class| match x {
-                    Class::Ord => 0,
+                    Class::Ord | Class::Lead | Class::Cont => 0,
                     Class::Punct => 1,
                     _ => 2,
                 };
@@ -267,7 +287,9 @@ impl DiffableStr for SymTxt {
         let mut out = vec![];
         let mut i = 0;
         while i < c.len() {
-            if class_of(c[i]) == Class::Cr && i + 1 < c.len() && class_of(c[i + 1]) == Class::Lf {
+            if (class_of(c[i]) == Class::Cr && i + 1 < c.len() && class_of(c[i + 1]) == Class::Lf)
+                || (class_of(c[i]) == Class::Lead && i + 1 < c.len() && class_of(c[i + 1]) == Class::Cont)
+            {
                 out.push(SymTxt::new(&c[i..i + 2]));
                 i += 2;
             } else {
